@@ -634,15 +634,34 @@ func validated(P *Program, req consumerReq) (bool, string) {
 	}
 	why := "no comparison of this field found in package config"
 	rejected := map[int64]bool{}
+	type candidate struct {
+		cmp                   *ssa.BinOp
+		at                    ssa.Instruction
+		trueFails, falseFails bool
+		direct                bool
+	}
 	for _, fn := range P.FuncsIn("servitor/config") {
+		var cands []candidate
 		for _, b := range fn.Blocks {
+			if len(b.Instrs) == 0 {
+				continue
+			}
 			iff, ok := b.Instrs[len(b.Instrs)-1].(*ssa.If)
 			if !ok {
 				continue
 			}
-			cmp, ok := iff.Cond.(*ssa.BinOp)
-			if !ok {
-				continue
+			if cmp, ok := iff.Cond.(*ssa.BinOp); ok {
+				cands = append(cands, candidate{cmp, iff, onlyErrorReturnsFrom(b.Succs[0]), onlyErrorReturnsFrom(b.Succs[1]), true})
+			}
+		}
+		// comparisons evaluated into a table of checks that a loop runs through, failing on the first that is true
+		for _, tc := range tableTestedComparisons(fn) {
+			cands = append(cands, candidate{tc.cmp, tc.cmp, true, false, false})
+		}
+		for _, cd := range cands {
+			cmp, iff := cd.cmp, cd.at
+			{
+				// (scope kept for the code below)
 			}
 			x, y, op := cmp.X, cmp.Y, cmp.Op
 			if _, isC := x.(*ssa.Const); isC {
@@ -670,8 +689,8 @@ func validated(P *Program, req consumerReq) (bool, string) {
 			if !ok || fp != req.field || isLen != (req.need == "len>=1") {
 				continue
 			}
-			trueFails := onlyErrorReturnsFrom(b.Succs[0])
-			falseFails := onlyErrorReturnsFrom(b.Succs[1])
+			trueFails := cd.trueFails
+			falseFails := cd.falseFails
 			if !trueFails && !falseFails {
 				why = "the comparison at " + P.InstrPos(iff) + " does not lead to an error return"
 				continue
@@ -801,7 +820,14 @@ func c19R4(c *Ctx) {
 			}
 			n++
 			bounded := false
-			for _, f := range factsOf(fn).At(b) {
+			facts := factsOf(fn).At(b)
+			// comparisons that a table-of-checks loop has run through before this point are known to be false
+			for _, tc := range tableTestedComparisons(fn) {
+				if tc.header.Dominates(b) && !blockInLoop(tc.header, b) {
+					facts = append(facts, Fact{tc.cmp, false})
+				}
+			}
+			for _, f := range facts {
 				cmp, ok := f.Cmp()
 				if !ok {
 					continue
@@ -991,4 +1017,153 @@ func constCounterValues(v ssa.Value) ([]int64, bool) {
 		out = append(out, x)
 	}
 	return out, len(out) > 0
+}
+
+// tableTestedComparisons: comparisons whose boolean result is stored into a
+// field F of the elements of a local table, where a range loop over that very
+// table tests F of every element and leaves through error returns only when it
+// is true. After the loop every such comparison is known to have been false.
+type tableTested struct {
+	cmp    *ssa.BinOp
+	header *ssa.BasicBlock // the head of the loop that runs through the table
+}
+
+func tableTestedComparisons(fn *ssa.Function) []tableTested {
+	var out []tableTested
+	eachInstr(fn, func(_ *ssa.BasicBlock, _ int, in ssa.Instruction) {
+		cmp, ok := in.(*ssa.BinOp)
+		if !ok {
+			return
+		}
+		switch cmp.Op {
+		case token.EQL, token.NEQ, token.LSS, token.LEQ, token.GTR, token.GEQ:
+		default:
+			return
+		}
+		for _, r := range refs(cmp) {
+			st, ok := r.(*ssa.Store)
+			if !ok || st.Val != ssa.Value(cmp) {
+				continue
+			}
+			// into field F of a composite element …
+			fa, ok := st.Addr.(*ssa.FieldAddr)
+			if !ok {
+				continue
+			}
+			fld := fieldOf(fa)
+			// … that is, or is copied into, a slot of a local array
+			var table *ssa.Alloc
+			switch base := fa.X.(type) {
+			case *ssa.IndexAddr:
+				table, _ = base.X.(*ssa.Alloc)
+			case *ssa.Alloc:
+				// a temporary literal that is then stored into the slot
+				for _, rr := range refs(base) {
+					if ld, ok := rr.(*ssa.UnOp); ok && ld.Op == token.MUL {
+						for _, r3 := range refs(ld) {
+							if st2, ok := r3.(*ssa.Store); ok && st2.Val == ssa.Value(ld) {
+								if ia, ok := st2.Addr.(*ssa.IndexAddr); ok {
+									table, _ = ia.X.(*ssa.Alloc)
+								}
+							}
+						}
+					}
+				}
+			}
+			if table == nil {
+				continue
+			}
+			// the loop: an If on field F of the current element of (a slice of) the table, true branch fails
+			for _, b := range fn.Blocks {
+				if len(b.Instrs) == 0 {
+					continue
+				}
+				iff, ok := b.Instrs[len(b.Instrs)-1].(*ssa.If)
+				if !ok {
+					continue
+				}
+				ld, ok := iff.Cond.(*ssa.UnOp)
+				if !ok || ld.Op != token.MUL {
+					continue
+				}
+				fa2, ok := ld.X.(*ssa.FieldAddr)
+				if !ok || fieldOf(fa2) != fld {
+					continue
+				}
+				if !elementOfTable(fa2.X, table, 0) || !onlyErrorReturnsFrom(b.Succs[0]) {
+					continue
+				}
+				// the loop head: the block with the range index phi that dominates b
+				var header *ssa.BasicBlock
+				for _, hb := range fn.Blocks {
+					if !hb.Dominates(b) {
+						continue
+					}
+					for _, hi := range hb.Instrs {
+						if ph, ok := hi.(*ssa.Phi); ok && ph.Comment == "rangeindex" {
+							header = hb
+						}
+					}
+				}
+				if header != nil {
+					out = append(out, tableTested{cmp, header})
+				}
+			}
+		}
+	})
+	return out
+}
+
+// elementOfTable: v is the address of the current element of a range over the
+// table (directly, or of a local copy of it).
+func elementOfTable(v ssa.Value, table *ssa.Alloc, d int) bool {
+	if d > 4 {
+		return false
+	}
+	switch x := v.(type) {
+	case *ssa.IndexAddr:
+		switch b := x.X.(type) {
+		case *ssa.Alloc:
+			return b == table
+		case *ssa.Slice:
+			return b.X == ssa.Value(table)
+		}
+	case *ssa.Alloc:
+		// a local copy: *x = *(&slice[i])
+		for _, r := range refs(x) {
+			if st, ok := r.(*ssa.Store); ok && st.Addr == ssa.Value(x) {
+				if ld, ok := st.Val.(*ssa.UnOp); ok && ld.Op == token.MUL && elementOfTable(ld.X, table, d+1) {
+					return true
+				}
+			}
+		}
+	}
+	return false
+}
+
+// blockInLoop: b can reach the loop head again (it lies inside the loop).
+func blockInLoop(header, b *ssa.BasicBlock) bool {
+	seen := map[*ssa.BasicBlock]bool{}
+	var walk func(x *ssa.BasicBlock) bool
+	walk = func(x *ssa.BasicBlock) bool {
+		if x == header {
+			return true
+		}
+		if seen[x] {
+			return false
+		}
+		seen[x] = true
+		for _, s := range x.Succs {
+			if walk(s) {
+				return true
+			}
+		}
+		return false
+	}
+	for _, s := range b.Succs {
+		if walk(s) {
+			return true
+		}
+	}
+	return false
 }
